@@ -143,7 +143,7 @@ PROPS = {
     },
     "C17": {
         "theorems": ["FinProto.Obl.C17_guards", "FinProto.Obl.C17_repo", "FinProto.enc_no_panic", "FinProto.enc_no_panic_of_mirrorOK"],
-        "aspects": {**ENC_CLASS},
+        "aspects": {**ENC_CLASS, "zero": [0, 1]},
         "rule": "every type: zero value, constructor result, random non-canonical values, values with nil in half of the pointer/interface "
                 "fields, multi-byte text in every text field, absent body with each registered and 8 unregistered keys; outcome class vs model.",
     },
